@@ -3,7 +3,12 @@ package main
 import (
 	"fmt"
 	"go/ast"
+	"go/parser"
+	"go/printer"
+	"go/token"
 	"go/types"
+	"os"
+	"path/filepath"
 	"sort"
 	"strconv"
 	"strings"
@@ -288,4 +293,105 @@ func guardPkg(guard string) string {
 	}
 	rest := guard[i+len(`interp.binPkg["`):]
 	return rest[:strings.Index(rest, `"`)]
+}
+
+// flagGating (C13): in cmd/yaegi, the three switches that open the dangerous symbol sets are wired each to
+// its own name — the environment variable, the command-line flag (whose default is the value read from the
+// environment for THAT switch) and the guard of the Use call of THAT symbol set.  Decided on the source
+// text of every function of cmd/yaegi that builds a flag set.
+func (r *Run) flagGating() {
+	dir := filepath.Join(r.Repo, "cmd", "yaegi")
+	fset := token.NewFileSet()
+	pkgs, err := parser.ParseDir(fset, dir, func(fi os.FileInfo) bool { return !strings.HasSuffix(fi.Name(), "_test.go") }, 0)
+	if err != nil {
+		r.engineError("cmd/yaegi does not parse: %v", err)
+		return
+	}
+	want := map[string][3]string{ // variable -> env, flag, symbol package
+		"useSyscall":      {"YAEGI_SYSCALL", "syscall", "syscall"},
+		"useUnsafe":       {"YAEGI_UNSAFE", "unsafe", "unsafe"},
+		"useUnrestricted": {"YAEGI_UNRESTRICTED", "unrestricted", "unrestricted"},
+	}
+	found := 0
+	for _, p := range pkgs {
+		for fname, f := range p.Files {
+			for _, d := range f.Decls {
+				fd, ok := d.(*ast.FuncDecl)
+				if !ok || fd.Body == nil {
+					continue
+				}
+				src := func(n ast.Node) string { var b strings.Builder; printer.Fprint(&b, fset, n); return b.String() }
+				if body := src(fd.Body); !(strings.Contains(body, "syscall.Symbols") || strings.Contains(body, "unsafe.Symbols") || strings.Contains(body, "unrestricted.Symbols")) {
+					continue // only the functions that can load a dangerous symbol set
+				}
+				found++
+				unit := "cmd/yaegi." + fd.Name.Name
+				_ = fname
+				env, flagOf, deflt := map[string]string{}, map[string]string{}, map[string]string{}
+				guard := map[string][]string{} // symbol package -> guards of its Use calls
+				var walk func(n ast.Node, guards []string)
+				walk = func(n ast.Node, guards []string) {
+					ast.Inspect(n, func(m ast.Node) bool {
+						if m == nil || m == n {
+							return true
+						}
+						switch m := m.(type) {
+						case *ast.IfStmt:
+							if m.Init != nil {
+								walk(m.Init, guards)
+							}
+							g := append(append([]string{}, guards...), src(m.Cond))
+							walk(m.Body, g)
+							if m.Else != nil {
+								walk(m.Else, guards)
+							}
+							return false
+						case *ast.AssignStmt:
+							// useX, _ := strconv.ParseBool(os.Getenv("YAEGI_X"))
+							if len(m.Lhs) == 2 && len(m.Rhs) == 1 {
+								if id, ok := m.Lhs[0].(*ast.Ident); ok {
+									t := src(m.Rhs[0])
+									if i := strings.Index(t, `os.Getenv("`); i >= 0 && strings.HasPrefix(t, "strconv.ParseBool(") {
+										rest := t[i+len(`os.Getenv("`):]
+										env[id.Name] = rest[:strings.Index(rest, `"`)]
+									}
+								}
+							}
+						case *ast.CallExpr:
+							fn := src(m.Fun)
+							if strings.HasSuffix(fn, ".BoolVar") && len(m.Args) >= 3 {
+								v := strings.TrimPrefix(src(m.Args[0]), "&")
+								flagOf[v] = strings.Trim(src(m.Args[1]), `"`)
+								deflt[v] = src(m.Args[2])
+							}
+							if strings.HasSuffix(fn, ".Use") && len(m.Args) == 1 {
+								a := src(m.Args[0])
+								if strings.HasSuffix(a, ".Symbols") {
+									pk := strings.TrimSuffix(a, ".Symbols")
+									guard[pk] = append(guard[pk], strings.Join(guards, " && "))
+								}
+							}
+						}
+						return true
+					})
+				}
+				walk(fd.Body, nil)
+				for v, w := range want {
+					r.frameObl(unit+"/gate["+w[1]+"]/environment", "the switch "+v+" is read from "+w[0], env[v] == w[0], v+" is read from "+env[v])
+					r.frameObl(unit+"/gate["+w[1]+"]/flag", "the flag -"+w[1]+" sets "+v+" and defaults to the value read from its own environment variable", flagOf[v] == w[1] && deflt[v] == v, "flag "+flagOf[v]+" with default "+deflt[v])
+					ok, why := len(guard[w[2]]) > 0, "no Use of "+w[2]+".Symbols"
+					for _, g := range guard[w[2]] {
+						if g != v {
+							ok, why = false, w[2]+".Symbols is loaded under the guard `"+g+"`"
+						}
+					}
+					r.frameObl(unit+"/gate["+w[1]+"]/guard", w[2]+".Symbols is loaded only when "+v+" is set", ok, why)
+				}
+				r.FuncsUC = append(r.FuncsUC, unit+" (flag gating)")
+			}
+		}
+	}
+	if found == 0 {
+		r.frameObl("cmd/yaegi/gates-exist", "cmd/yaegi has functions that load the syscall, unsafe or unrestricted symbols", false, "none found")
+	}
 }
